@@ -190,6 +190,17 @@ def build(tier: str, seed: int, workdir: str, nprog: int, nvec: int, profiles=PR
             stats['hand_written'] += 1
             pid += 1
             progs.append(p)
+        # the repository's own libraries: real programs, typed input vectors
+        from .. import libprogs
+        for name, fn in libprogs.library_functions():
+            vec = libprogs.typed_vectors(fn, rng, nvec * 2)
+            p = progrun.record_program(fn, pid, vec, f'# fpy2.libraries.{name}\n' + fn.format())
+            if isinstance(p, tuple):
+                stats['library-' + p[0]] += 1
+                continue
+            stats['library_functions'] += 1
+            pid += 1
+            progs.append(p)
     return progs, stats
 
 
